@@ -6,8 +6,8 @@ untagged JSON form at the level of a small JSON AST.
 What is modelled and what is not:
 * `Json` is the *data model* serde_json hands to serde (`null`, integer, float, string, bool, array),
   not JSON text: number/string printing and parsing by serde_json itself are outside the model (they
-  are explored by the harness — and are where F-28 lives: serde_json without `float_roundtrip` does
-  not parse back every float it prints).  An integer literal travels as `int z` when it fits `i64`
+  are explored by the harness — which is how F-28 was found: serde_json without `float_roundtrip` does
+  not parse back every float it prints; fixed by enabling that feature).  An integer literal travels as `int z` when it fits `i64`
   (negative) or `u64` (non-negative) — serde_json's `N::NegInt` / `N::PosInt`; anything else is a
   float already at the text level, so `int z` outside `[-2^63, 2^64)` is not a value of this AST
   (`untaggedParse` answers `none` there).
